@@ -2,6 +2,7 @@ pub mod exec;
 pub mod factory;
 pub mod lock;
 pub mod node;
+pub mod prod;
 pub mod props;
 pub mod report;
 pub mod seams;
